@@ -43,7 +43,22 @@ def convection_order(ctx, rng, idx):
     a = float(np.round(rng.uniform(0.5, 2.0), 3) * rng.choice([-1, 1]))
     L = float(np.round(rng.uniform(0.5, 3.0), 3))
     nm = int(rng.integers(1, 4))
-    modes = [(k, float(rng.uniform(0.3, 1.0)) / k, float(rng.uniform(0, 2 * np.pi))) for k in sorted(rng.choice([1, 2, 3], nm, replace=False))]
+    # the convection equation has no scale of its own: the order does not depend on the units of the data, of the length or of the
+    # speed (amplitudes of 1e-8 or 1e8, a domain of a micrometre or of a thousand kilometres, a slow or a fast wave)
+    uq = float(10 ** rng.uniform(-8, 8)) if rng.random() < 0.4 else 1.0
+    ux = float(10 ** rng.uniform(-6, 6)) if rng.random() < 0.4 else 1.0
+    ua = float(10 ** rng.uniform(-4, 4)) if rng.random() < 0.3 else 1.0
+    a, L = a * ua, L * ux
+    modes = [(k, uq * float(rng.uniform(0.3, 1.0)) / k, float(rng.uniform(0, 2 * np.pi))) for k in sorted(rng.choice([1, 2, 3], nm, replace=False))]
+    if rname0 in ("muscl_vanalbada", "muscl_vanleer"):
+        # the smooth limiters carry an absolute regularisation (1e-20 next to a^2 + b^2): property C12 states their homogeneity only for
+        # slopes above 1e-8, "up to a relative 1e-20/a^2".  Data whose typical slope (amplitude x 2 pi k / L) falls below 1e-6 are brought
+        # back to 1e-6...1e-3: just above that scale, where the limiter must still behave as for slopes of order one
+        S = min(abs(am) * 2 * np.pi * k / L for k, am, _ in modes)
+        if S < 1e-6:
+            fac = float(10 ** rng.uniform(-6, -3)) / S
+            uq *= fac
+            modes = [(k, am * fac, ph) for k, am, ph in modes]
     iname = str(rng.choice(["rk4", "rk3ssp"]))
     big_steps = bool(rname0 == "extrapol3" and iname == "rk4" and rng.random() < 0.7)
     # at least ~13 cells per shortest wavelength on the coarsest level (asymptotic regime), more for first order and limiters
@@ -54,7 +69,7 @@ def convection_order(ctx, rng, idx):
     # at its own time and converges at the design order, not only the last one
     Tmid = sorted(float(T * rng.uniform(0.35, 0.95)) for _ in range(2))
     errs, hs, emax, errs_mid = [], [], [], [[], []]
-    x0 = float(rng.choice([0.0, np.round(rng.uniform(-3, 3), 3), -L / 2]))      # the origin of the periodic domain is arbitrary
+    x0 = float(rng.choice([0.0, ux * np.round(rng.uniform(-3, 3), 3), -L / 2]))      # the origin of the periodic domain is arbitrary
     mk = int(rng.integers(4))                                                  # ... and so is the class that builds the uniform mesh
     for n in levels:
         mesh = [lambda: fmesh.unimesh(ncell=n, length=L, x0=x0), lambda: fmesh.mesh1d(ncell=n, length=L, x0=x0),
@@ -79,7 +94,7 @@ def convection_order(ctx, rng, idx):
     slope = float(np.polyfit(np.log(hs), np.log(errs), 1)[0])
     last = float(np.log(errs[-2] / errs[-1]) / np.log(2))
     lo, hi = BANDS[rname0]
-    ctx.describe(recon=rname0 if kk is None else "extrapolk(%g)" % kk, convcoef=a, length=L, x0=x0, mesh_class=["unimesh", "mesh1d", "morphedmesh(identity)", "refinedmesh(ratio=1)"][mk], modes=modes, integrator=iname, levels=levels, T=T, errors=errs, slope=slope, last_order=last)
+    ctx.describe(recon=rname0 if kk is None else "extrapolk(%g)" % kk, convcoef=a, length=L, x0=x0, units={"data": uq, "length": ux, "speed": ua}, mesh_class=["unimesh", "mesh1d", "morphedmesh(identity)", "refinedmesh(ratio=1)"][mk], modes=modes, integrator=iname, levels=levels, T=T, errors=errs, slope=slope, last_order=last)
     slope = float(np.polyfit(np.log(hs[1:]), np.log(errs[1:]), 1)[0])      # three finest levels
     ctx.true("order", np.all(np.isfinite(errs)) and lo <= slope <= hi, "convection-order/%s/outside-design-band" % rname0, {"slope": slope, "band": [lo, hi], "errors": errs, "levels": levels}, cls="order:" + rname0)
     for j_ in range(2):
